@@ -1070,6 +1070,9 @@ class MyPyAstVisitor:
 
         # A type alias ("IntList = list[int]") stands for the type it abbreviates
         if isinstance(mypy_type, mp_types.TypeAliasType):
+            if mypy_type.is_recursive and mypy_type.alias is not None:
+                # An alias that refers to itself ("Json = dict[str, Json] | int") cannot be written out, it keeps its name
+                return sds_types.NamedType(name=mypy_type.alias.name, qname=mypy_type.alias.fullname)
             mypy_type = mp_types.get_proper_type(mypy_type)
 
         # Special cases where we need the unanalyzed_type to get the type information we need
@@ -1105,10 +1108,14 @@ class MyPyAstVisitor:
 
         # Iterable mypy types
         if isinstance(mypy_type, mp_types.TupleType):
+            named_tuple = mypy_type.partial_fallback.type
+            if named_tuple.fullname != "builtins.tuple":
+                # A class that derives from NamedTuple is a class (and may refer to itself in its fields)
+                return sds_types.NamedType(name=named_tuple.name, qname=named_tuple.fullname)
             return sds_types.TupleType(types=[self.mypy_type_to_abstract_type(item) for item in mypy_type.items])
         elif isinstance(mypy_type, mp_types.UnionType):
             # (the members of an alias that abbreviates a union are members of this union)
-            items = mp_types.flatten_nested_unions(mypy_type.items)
+            items = mp_types.flatten_nested_unions(mypy_type.items, handle_recursive=False)
             return sds_types.UnionType(types=[self.mypy_type_to_abstract_type(item) for item in items])
 
         # Special Cases
